@@ -148,3 +148,12 @@ add('C20', 'break', D, 'event_ndims=1,', 'event_ndims=0,', 'no sum over the even
 add('C20', 'break', 'brax/training/agents/ppo/networks.py', 'log_prob = parametric_action_distribution.log_prob(logits, raw_actions)', 'log_prob = parametric_action_distribution.log_prob(logits, parametric_action_distribution.postprocess(raw_actions))', 'log-prob of the squashed action')
 add('C20', 'break', 'brax/training/networks.py', 'obs = preprocess_observations_fn(obs, processor_params)', 'pass', 'observations not normalised')
 add('C20', 'benign', D, 'return 2.0 * (jnp.log(2.0) - x - jax.nn.softplus(-2.0 * x))', 'return (jnp.log(2.0) - x - jax.nn.softplus(-2.0 * x)) * 2.0', 'commuted')
+
+# ---- C05: representation independence (equivariance / link order / components)
+add('C05', 'break', G + 'dynamics.py', 'cdof = cdof.replace(ang=ang, vel=vel)', 'cdof = cdof.replace(ang=ang)', 'prismatic dof axes left in the link frame')
+add('C05', 'break', G + 'mass.py', '      j = sys.link_parents[j]', '      j = j - 1', 'mass-matrix ancestor mask walks indices instead of parents')
+add('C05', 'break', 'brax/spring/pipeline.py', 'xdd_i = Motion.create(vel=sys.gravity)', 'xdd_i = Motion.create(vel=sys.gravity * jax.numpy.array([0.0, 0.0, 1.0]))', 'only the z component of gravity')
+add('C05', 'break', 'brax/positional/pipeline.py', 'xdd_i = Motion.create(vel=sys.gravity)', 'xdd_i = Motion.create(vel=jax.numpy.array([0.0, 0.0, 1.0]) * sys.gravity[2])', 'gravity assumed along z')
+add('C05', 'break', G + 'dynamics.py', 'cdd_parent = Motion.create(vel=-jp.tile(sys.gravity, (num_roots, 1)))', 'cdd_parent = Motion.create(vel=-jp.tile(sys.gravity * jp.array([0.0, 0.0, 1.0]), (num_roots, 1)))', 'gravity assumed along z (generalized)')
+add('C05', 'benign', G + 'dynamics.py', 'root = jp.array([root_fn(i) for i in range(sys.num_links())])', 'root = jp.array([0 for i in range(sys.num_links())])', 'one global reference point instead of per-root CoM (physics unchanged)')
+add('C05', 'benign', G + 'dynamics.py', 'mass_xi = jax.vmap(jp.multiply)(sys.link.inertia.mass, x_i.pos)', 'mass_xi = jax.vmap(lambda m, p: p * m)(sys.link.inertia.mass, x_i.pos)', 'commuted')
